@@ -46,6 +46,8 @@ pub fn rescore(a: &Alignment, x: &[u8], y: &[u8], ms: i64, mm: i64, go: i64, ge:
             }
             AlignmentOperation::Ins => { if i >= x.len() { return Err("Ins past the end of x".into()); } score += if prev == 1 { ge } else { go + ge }; i += 1; prev = 1; seen_core = true; }
             AlignmentOperation::Del => { if j >= y.len() { return Err("Del past the end of y".into()); } score += if prev == 2 { ge } else { go + ge }; j += 1; prev = 2; seen_core = true; }
+            // (a zero-length clip is no clipped end: the documented model charges the penalty of every NON-EMPTY clipped end)
+            AlignmentOperation::Xclip(0) | AlignmentOperation::Yclip(0) => { prev = 0; }
             AlignmentOperation::Xclip(k) => { prev = 0;
                 if i == a.xstart && !xpre && k == a.xstart { xpre = true; score += clips[0]; }
                 else { if i + k != x.len() { return Err(format!("Xclip({}) suffix at x position {} of {}", k, i, x.len())); } score += clips[1]; } }
